@@ -49,7 +49,7 @@ Fixpoint layout (off al : Z) (cs : list col) : Z * Z * list crec :=
   | c :: cs' =>
     let o1 := Ceil off (c_align c) in
     let '(off', al', rs) := layout (wrapU 64 (o1 + c_size c)) (Z.max al (c_align c)) cs' in
-    (off', al', mkrec (c_code c) o1 (c_size c) (c_align c) :: rs)
+    (off', al', mkrec (c_code c) o1 (c_size c) (c_align c) (c_mut c) :: rs)
   end.
 
 (* a chain of slots between lo and hi: in order, aligned, non-empty, not overlapping *)
